@@ -185,7 +185,7 @@ Next == \/ \E l \in LS2, t \in FreeT, s \in Strats : TLAppend(l, t, s)
         \/ \E a \in AS, srcs \in W(TreeSrcs, {<<<<"Z", "AB">>>>}) : TARead(a, srcs)
         \/ \E m \in MS, t \in RowX : CMNewSeq(m, t)
         \/ \E m \in MS, t \in RowX : CMSetItem(m, t)
-        \/ \E m \in MS, t \in (IF Big THEN XS ELSE W({1, 3, 5, 6, 8}, {1, 5})) : CMGetTaxon(m, t)
+        \/ \E m \in MS, t \in (IF Big THEN XS ELSE W({1, 2, 3, 5, 6, 8}, {1, 5})) : CMGetTaxon(m, t)
         \/ \E m \in MS, lab \in W({"c", "B", "q1"}, {"c"}) : CMGetLabel(m, lab)
         \/ \E m \in MS, i \in W({0, 2, 5}, {2}) : CMGetIndex(m, i)
         \/ \E m \in MS, n \in NsT, b \in BOOLEAN : CMMigrate(m, n, b)
